@@ -2103,6 +2103,53 @@ def scope_scenarios(ctx, cuqi):
                              diff, "a conditioned copy / likelihood / evaluated density depends on the caller keeping its original alive")
 
 
+def fd_option_scenarios(ctx, cuqi):
+    """directed: an option set on an original BEFORE use (`enable_FD(eps)`) must survive every operation that builds something
+    from the original (to_likelihood, conditioning on the own name / on a parameter, joint conditioning, model application)"""
+    from cuqi.distribution import Gaussian, Gamma, JointDistribution
+    from cuqi.model import LinearModel
+    data = np.array([0.1, 0.2, -0.4]); x0 = np.array([0.5, -1.0, 2.0])
+    for eps in (1e-3, 1e-6):
+        for opname in ("to_likelihood", "cond-own-name", "cond-parameter", "joint-cond", "likelihood-cond", "logd", "gradient"):
+            with quiet():
+                A = LinearModel(np.array([[1.0, 2.0, 0.5], [0.0, 1.0, 3.0], [2.0, 0.0, 1.0]]))
+                y = Gaussian(A, lambda s: 1.0 / s, name="y")
+                x = Gaussian(np.zeros(3), 1.0, name="x"); s_ = Gamma(1.0, 1.0, name="s")
+                y.enable_FD(eps); x.enable_FD(eps)
+            origs = [("y", y), ("x", x), ("s", s_)]
+            s0 = {lab: snapshot(o) for lab, o in origs}
+            f0 = {lab: (o.FD_enabled, o.FD_epsilon) for lab, o in origs}
+            desc = {"scenario": "option set before use", "epsilon": eps, "op": opname,
+                    "setup": "y = Gaussian(A, lambda s: 1/s); x = Gaussian(0, 1); y.enable_FD(eps); x.enable_FD(eps)"}
+            ctx.case("fd-option:" + opname, desc)
+            try:
+                with quiet():
+                    if opname == "to_likelihood":
+                        y.to_likelihood(data)
+                    elif opname == "cond-own-name":
+                        y(y=data)
+                    elif opname == "cond-parameter":
+                        y(s=2.0)
+                    elif opname == "joint-cond":
+                        JointDistribution(x, y, s_)(y=data)
+                    elif opname == "likelihood-cond":
+                        y.to_likelihood(data)(s=2.0)
+                    elif opname == "logd":
+                        y.logd(x=x0, s=2.0, y=data)
+                    else:
+                        x.gradient(x0)
+            except Exception as e:  # noqa
+                ctx.note(f"fd-option scenario {opname}: {type(e).__name__}: {str(e)[:60]}")
+            for lab, o in origs:
+                d = snap_equal(s0[lab], snapshot(o))
+                f1 = (o.FD_enabled, o.FD_epsilon)
+                if d or f1 != f0[lab]:
+                    key = f"alter:{opname}:fd-option"
+                    ctx.fail(key, {**desc, "original": lab}, {"FD_enabled, FD_epsilon": f0[lab]}, {"FD_enabled, FD_epsilon": f1, "structure": d[:3]},
+                             f"`{opname}` changed the finite-difference option set on the original '{lab}'")
+                    break
+
+
 def _canon_name(x):
     return "exc:" + type(x).__name__ if isinstance(x, Exception) else x
 
@@ -2203,12 +2250,13 @@ def run(ctx):
     tracer = Tracer(cuqi)
     tracer.install()
     try:
-        n = 45 if q else 40 * ctx.scale
+        n = 36 if q else 40 * ctx.scale
         sc = 1 if q else ctx.scale
-        timed("programs", run_programs, ctx, cuqi, tracer, n, thorough, n_step=(14 if q else 13 * sc), n_rejoin=(10 if q else 9 * sc),
-              n_dense=(10 if q else 9 * sc), n_inter=(10 if q else 9 * sc), n_reduce=(12 if q else 9 * sc))
+        timed("programs", run_programs, ctx, cuqi, tracer, n, thorough, n_step=(11 if q else 13 * sc), n_rejoin=(9 if q else 9 * sc),
+              n_dense=(9 if q else 9 * sc), n_inter=(9 if q else 9 * sc), n_reduce=(10 if q else 9 * sc))
         timed("sampler_scenarios", sampler_scenarios, ctx, cuqi, tracer, thorough)
         timed("deep_chains", deep_chains, ctx, cuqi)
         timed("scope_scenarios", scope_scenarios, ctx, cuqi)
+        timed("fd_option_scenarios", fd_option_scenarios, ctx, cuqi)
     finally:
         tracer.uninstall()
